@@ -286,4 +286,16 @@ def permRowOk (row : String × Nat × List Nat × List Nat) : Bool :=
   let (fam, dom, p, q) := row
   p == toChannelsFirst (if dom = 0 then 1 else 2) p.length && (if q.isEmpty then fam == "RIM" else permInverse p q)
 
+/-! ## where the spatial size of a tensor may change outside a torch layer -/
+
+/-- the functions of `direct/nn` whose functional pad / pool calls are part of the shape model (each has a translated kernel
+or a forward program): any *other* site of such a call is code that can change a spatial size outside the model -/
+def modelledSizeSites : List (String × String) :=
+  [("unet/unet_2d.py", "UnetModel2d.forward"), ("unet/unet_2d.py", "NormUnetModel2d.pad"),
+   ("unet/unet_3d.py", "UnetModel3d.forward"), ("unet/unet_3d.py", "NormUnetModel3d.pad"), ("unet/unet_3d.py", "pad_to_pow_of_2"),
+   ("mwcnn/mwcnn.py", "MWCNN.pad"), ("didn/didn.py", "DUB.pad"), ("multidomainnet/multidomain.py", "MultiDomainUnet2d.forward")]
+
+def sizeSitesOk (sites : List (String × String × String)) : Bool :=
+  sites.all fun (f, q, _) => modelledSizeSites.contains (f, q)
+
 end DirectVerif.Shapes
